@@ -6,6 +6,7 @@ package main
 // address: a parameter of the entry (input memory), fresh memory, or MidState/global memory.
 
 import (
+	"go/token"
 	"go/types"
 	"strings"
 
@@ -23,6 +24,14 @@ type InputWrite struct {
 func targetRoots(t string) []string {
 	t = strings.TrimPrefix(t, "*")
 	switch {
+	case strings.HasPrefix(t, "ptrs("):
+		if end := strings.LastIndex(t, ")"); end > 0 {
+			var out []string
+			for _, alt := range splitTop(t[5:end], '|') {
+				out = append(out, targetRoots(alt)...)
+			}
+			return out
+		}
 	case strings.HasPrefix(t, "phi(") && strings.HasSuffix(t, ")"):
 		// phi may carry a suffix (index); find the matching paren
 		depth := 0
@@ -174,6 +183,23 @@ func (ge *GuardEngine) sliceRoot(v ssa.Value, env *Env) string {
 		}
 		return ge.sliceRoot(sl.X, env)
 	}
+	// a slice held in a local variable: follow the values stored into it
+	if ld, ok := v.(*ssa.UnOp); ok && ld.Op == token.MUL {
+		if al, ok := ge.pv.resolve(ld.X).(*ssa.Alloc); ok && ge.rootDepth < 6 {
+			ge.pv.loadCtx = append(ge.pv.loadCtx, ld)
+			whole, _ := ge.pv.storesTo(al, -1)
+			ge.pv.loadCtx = ge.pv.loadCtx[:len(ge.pv.loadCtx)-1]
+			if len(whole) > 0 {
+				ge.rootDepth++
+				var rs []string
+				for _, w := range whole {
+					rs = append(rs, ge.sliceRoot(w, env))
+				}
+				ge.rootDepth--
+				return joinAtoms(rs)
+			}
+		}
+	}
 	return ge.refRoot(v, env)
 }
 
@@ -185,4 +211,30 @@ func (ge *GuardEngine) refRoot(v ssa.Value, env *Env) string {
 		}
 	}
 	return ge.pv.Atom(v, env)
+}
+
+// pointerArrayRoots: for a slice taken from a local array of pointers, the memory objects the stored
+// pointers point into.
+func (ge *GuardEngine) pointerArrayRoots(v ssa.Value, env *Env) []string {
+	sl, ok := v.(*ssa.Slice)
+	if !ok {
+		return nil
+	}
+	arr, ok := sl.X.(*ssa.Alloc)
+	if !ok {
+		return nil
+	}
+	set := map[string]bool{}
+	for _, r := range *arr.Referrers() {
+		ia, ok := r.(*ssa.IndexAddr)
+		if !ok {
+			continue
+		}
+		for _, rr := range *ia.Referrers() {
+			if st, ok := rr.(*ssa.Store); ok && st.Addr == ia {
+				set[ge.writeRoot(st.Val, env)] = true
+			}
+		}
+	}
+	return sortedKeys(set)
 }
